@@ -196,6 +196,39 @@ def Mode.apply : Mode → Cell → Cell → Val
   | .right, _, b => .cell b
   | .fn f, a, b => f a b
 
+/-- a python value handed over as `mode`: a scalar (None / bool / int / float / str / datetime) or a callable -/
+inductive PyMode where
+  | val (c : Cell)
+  | fn (f : Cell → Cell → Val)
+
+/-- `is_str(mode) and mode[0].lower() == ch` for `ch` = `'l'` / `'r'`.  `none` = the EMPTY string: `mode[0]` raises IndexError
+(in `join` only when a shared non-key column exists and some pair matched: not modelled, the driver answers `bad-op`).
+`Char.toLower` is ASCII; the only characters python's `str.lower` sends to `l` / `r` are `L` / `R` (assumption). -/
+def modeStarts (ch : Char) : Cell → Option Bool
+  | .str s => match s.toList with
+    | [] => Option.none
+    | c :: _ => some (c.toLower == ch)
+  | _ => some false
+
+/-- the `if / elif / elif / else` chain of `join` (lines 1192-1205):
+`(is_str(mode) and mode[0].lower() == 'l') or mode == 0` → left; `(… == 'r') or mode == 1` → right; `callable(mode)` → apply it;
+ANYTHING else (`None`, `'x'`, `2`, `nan`, a datetime) → the pair `(lhs, rhs)`.  `mode == 0` is python `==`: `0`, `0.0`, `-0.0`, `False`. -/
+def Mode.ofPy : PyMode → Option Mode
+  | .fn f => some (.fn f)
+  | .val c => do
+      let l ← modeStarts 'l' c
+      if l || c.pyEq (.int 0) then some .left else
+      let r ← modeStarts 'r' c
+      if r || c.pyEq (.int 1) then some .right else some .pair
+
+/-- `mode = 1 if (is_str(mode) and mode[0].lower() == 'r') or mode == 1 else 0` (`xor`, line 1258): everything that is not
+`'r…'` / `1` / `1.0` / `True` — `None`, `'x'`, `2` and callables included — means the left table -/
+def Mode.xorOfPy : PyMode → Option Nat
+  | .fn _ => some 0
+  | .val c => do
+      let r ← modeStarts 'r' c
+      some (if r || c.pyEq (.int 1) then 1 else 0)
+
 /-- name of the joined key column `i` (lines 1104-1110) -/
 def joinColNames : List KeySpec → List KeySpec → Res (List String)
   | .col l :: ls, _ :: rs => do let t ← joinColNames ls rs; pure (l :: t)
